@@ -416,6 +416,22 @@ End Deep.
 
 (* ------------------------------------------------------------------ writer / reader of indirect objects *)
 
+(* the writer's and the reader's crypt-filter decision are the same decision, for every filter list *)
+Lemma write_skips_eq : forall filters, write_skips_crypt filters = skips_crypt filters.
+Proof.
+  intros [|f [|g t]]; unfold write_skips_crypt, skips_crypt; simpl; try reflexivity.
+Qed.
+
+Lemma read_skips_eq : forall filters, read_skips_crypt filters = skips_crypt filters.
+Proof.
+  intros [|f [|g t]]; unfold read_skips_crypt, skips_crypt; simpl; try reflexivity.
+Qed.
+
+Lemma crypt_skip_agrees : forall filters, read_skips_crypt filters = write_skips_crypt filters.
+Proof. intro filters. rewrite read_skips_eq, write_skips_eq. reflexivity. Qed.
+
+Global Opaque write_skips_crypt read_skips_crypt.
+
 Definition filters_of (io : iobj) : list bytes :=
   match io with IStream _ f _ => f | _ => [] end.
 
@@ -450,12 +466,13 @@ Section IObj.
     - destruct (encryptDict strE d) as [d'|] eqn:Hd; [|discriminate].
       pose proof (dict_roundtrip strE strD StrED _ _ Hd) as Hdd.
       pose proof (encryptDict_type_is strE nXRef _ _ Hd) as Hx.
-      destruct (type_is nXRef d' || single_crypt filters) eqn:Hskip.
-      + inversion H; subst. simpl. rewrite Hdd.
-        destruct (single_crypt filters); [reflexivity|]. rewrite orb_false_r in Hskip. rewrite <- Hx, Hskip. reflexivity.
+      rewrite write_skips_eq in H.
+      destruct (type_is nXRef d' || skips_crypt filters) eqn:Hskip.
+      + inversion H; subst. simpl. rewrite Hdd, read_skips_eq.
+        destruct (skips_crypt filters); [reflexivity|]. rewrite orb_false_r in Hskip. rewrite <- Hx, Hskip. reflexivity.
       + apply orb_false_iff in Hskip. destruct Hskip as [Hxr Hcr].
         destruct (stmE raw) as [raw'|] eqn:Hs; [|discriminate]. inversion H; subst. simpl.
-        rewrite Hdd, Hcr, <- Hx, Hxr.
+        rewrite Hdd, read_skips_eq, Hcr, <- Hx, Hxr.
         pose proof (StmED _ _ Hs) as Hdec.
         destruct raw' as [|x r'].
         * simpl in Hdec. inversion Hdec; subst. reflexivity.
